@@ -100,6 +100,8 @@ pub enum Pipe {
     DF,
     /// parse -> to_deepex -> from_deepex
     PDF,
+    /// DeepEx::parse -> from_deepex -> to_deepex -> from_deepex
+    DFDF,
 }
 pub const ALL_PIPES: [Pipe; 9] = [Pipe::P, Pipe::W, Pipe::P2, Pipe::W3, Pipe::D, Pipe::PD, Pipe::WD, Pipe::DF, Pipe::PDF];
 
@@ -144,6 +146,12 @@ pub fn run_pipe(p: Pipe, text: &str) -> Out {
                 let e = tryo!(SFlat::parse(text), "parse");
                 let d = tryo!(e.to_deepex(), "to_deepex");
                 eval_any(&tryo!(SFlat::from_deepex(d), "from_deepex"))
+            }
+            Pipe::DFDF => {
+                let d = tryo!(SDeep::parse(text), "deep parse");
+                let f = tryo!(SFlat::from_deepex(d), "from_deepex");
+                let d = tryo!(f.to_deepex(), "to_deepex");
+                eval_any(&tryo!(SFlat::from_deepex(d), "from_deepex (2nd)"))
             }
         }
     });
